@@ -194,7 +194,7 @@ def account(ctx, case, viols, info, extra=()):
 def case_strategy():
     from hypothesis import strategies as st
     import gen
-    T = st.sampled_from([0.25, 0.5, 1.0, 1.5, 2.0, 4.0, 8.0])
+    T = st.sampled_from([0, 0.01, 0.25, 0.5, 1.0, 1.5, 2.0, 4.0, 8.0])  # (0: due at once)
     D = st.sampled_from([0, 0, 0.25, 0.5, 1.0])
 
     @st.composite
